@@ -267,6 +267,18 @@ prop("C32",
               "rename/move/delete, language/locale switches and both file round trips (string, parser and serialisation code)")
 
 
+prop("C10",
+     units=["langframe"],
+     level="proof",
+     claim="slice (frame conditions): Model::set_language changes NOTHING in the workbook — no stored formula, defined name, cell value or setting — for any "
+           "language id (it only re-points the parser and the model at the language table); Model::set_locale and set_timezone write, in the workbook, only "
+           "their own setting, and stored formulas and defined names are the same before and after; a rejected id leaves the whole model untouched",
+     assumptions=["Model::evaluate writes values only — never stored formulas, defined names or settings (assumed stub: the evaluator is not under contract)",
+                  "D5: Model/Workbook/Worksheet shells with the touched fields, the stored formulas / names, and an opaque rest"],
+     residual="that a formula typed in one language, shown in another and re-entered is the same formula (printer/parser round trip: string code); which values may "
+              "change with the locale; UserModel-level language switch")
+
+
 def evidence(pid, tier, seed, results, scan_results, kani_results, violations, known_hits, undecided, wall):
     P = PROPS[pid]
     obligations = 0
